@@ -77,11 +77,23 @@ def run(rep, tier, seed):
         rep.add_tlc(x, "Totality.tla outcome sets")
     # ---- cases ------------------------------------------------------------------
     cases = []
-    sel = scan_recs if big or len(scan_recs) <= 12000 else rnd.sample(scan_recs, 12000)
+    # every token sequence in each lexical spelling of its numbers (first character a
+    # digit, a sign, a dot) plus a free mixture: what a scanner does after a token
+    # depends on the first character of the next one
+    if big:
+        sel = scan_recs
+    else:
+        # all sequences behind a complete moveto, a sample of the rest
+        deep = [s for s in scan_recs if len(s["toks"]) > 3 and s["toks"][:3] == ["M", "n", "n"]]
+        rest = [s for s in scan_recs if not (len(s["toks"]) > 3 and s["toks"][:3] == ["M", "n", "n"])]
+        sel = deep + (rest if len(rest) <= 3000 else rnd.sample(rest, 3000))
     for j, s in enumerate(sel):
-        d = totc.path_string(s["toks"], random.Random(rnd.random()))
-        xml = f'<svg><path d="{d.replace("&", "&amp;").replace("<", "&lt;").replace(chr(34), "&quot;")}"/></svg>'
-        cases.append({"k": f"scan-{j}", "xml": xml, "cfg": {}, "trace": True, "trace_cap": 5000, "what": "scan", "allowed": ["ok", "err"]})
+        for lc in (None, "digit", "sign", "dot"):
+            if lc and not any(t == "n" for t in s["toks"]):
+                continue
+            d = totc.path_string(s["toks"], random.Random(rnd.random()), lexclass=lc)
+            xml = f'<svg><path d="{d.replace("&", "&amp;").replace("<", "&lt;").replace(chr(34), "&quot;")}"/></svg>'
+            cases.append({"k": f"scan-{j}-{lc}", "xml": xml, "cfg": {}, "trace": True, "trace_cap": 5000, "what": "scan", "allowed": ["ok", "err"]})
     for j, c in enumerate(rd.replay):
         data = totc.depth_doc(c["construct"], c["n"], quad_cap=3000 if big else 700)
         cases.append({"k": f"depth-{j}", "b64": vlib.b64(data), "cfg": {}, "what": f"depth:{c['construct']}", "n": c["n"],
